@@ -56,6 +56,11 @@ if __name__ == "__main__":
                "trusted_base": ["T3 correspondence go/cmd/c01 (valid, mutated, truncated documents, single-rune probes, both stream endings) for Model/NQuads.lean"],
                "assumptions": ["N-Triples/N-Quads: bufio.Reader.ReadRune yields the UTF-8 decoding of the bytes and a sticky terminal error; the model has no panic outcome (every index/assertion of the Go decoders is in range; a recovered Go panic shows as a disagreement)"]},
               open(os.path.join(ROOT, "props", NQDEC + ".json"), "w"), indent=1)
+    json.dump({"id": "C07NQ", "lean_targets": ["RdfModel.Props.C07NQ"], "audit": ["RdfModel/Audit/C07NQ.lean"],
+               "theorems": ["RdfModel.C07NQ." + t for t in ["next_nt_quad", "next_nt_done", "nt_sub_nq", "nt_statements_default_graph", "run_congr",
+                            "gen_decoder_tables_equal", "gen_iriEsc_equal", "gen_tables_equal", "nt_sub_nq_real"]],
+               "harness": "c01", "extract_args": ["-only", "nq"], "trusted_base": [], "assumptions": []},
+              open(os.path.join(ROOT, "props", "C07NQ.part.json"), "w"), indent=1)
     assemble("C05", [(NQDEC, r"run_fuel_suffices|next_shrinks|latch|next_true_has_current", None),
                      ("C01RJ.fragment", r"no_panic|latch|accessor|idx_inv|closed_form|legacy_panics", None),
                      ("C05Ttl", r"C05\.|no_panic|fuel|latch|accessors|real_producers|total_real|gen_tables_nul", "C05"),
@@ -80,3 +85,18 @@ if __name__ == "__main__":
              "Proof for N-Triples/N-Quads: a reader error is never a clean end, a clean end only on blank remainder (truncation inside a statement is an error), a produced statement is independent of what follows and of how the stream ends (next_extend), statements of a prefix are a prefix of the statements of the document (prefix_monotone); determinism is functionhood of the model. Turtle/TriG: ioerr_reported, truncation reported for every scan function that checks its error argument (partial: six closures excluded, corresponded only), prefix monotonicity corresponded only (known finding D43). Chunking independence: bufio turns any chunking into one rune stream (assumption) — exercised by T3 with 1-byte/mid-rune/random chunk readers for every decoder incl. the whole-document formats.",
              "Trusted: as C05; bufio.Reader semantics; whole-document formats by search only.",
              "Lean 4 theorems over the abstract rune stream (eof | ioerr) + T3 with chunked/failing readers and every-prefix truncation")
+    assemble("C02", [("C02T.fragment", r"C02\.", "C02")],
+      "proof (partial)",
+      "Proof (partial: token level): for every IRI, lexical form, local name, language tag and label the Turtle formatter's output is read back by the decoder's token producer as the same value (iriref_roundtrip, string_roundtrip, pname_roundtrip under PNLocalOK, langtag/bnode round trips), a literal written in bare shorthand is read back with the same datatype AND lexical form (shorthand_sound, shorthand_datatypes), producers never panic; generic in the T1 tables regenerated from encoding/turtle and encoding/trig. Document level (statement grouping, prefix/base directives, nested resources): the encoder's bytes are not modelled yet; the property oracle encode -> decode (same defaults) -> isomorphism runs on the implementation for every generated configuration. The document-level model/theorems are being added (props/C02D.json).",
+      "Trusted: Lean kernel; standard axioms at most; T1 extractor (ttl); T3 harness c02tok for the producers/formatters of both packages; iri.BaseIRI/PrefixManager behaviour is C13's; document layer by oracle only.",
+      "Lean 4 round-trip theorems for every Turtle token kind over T1-regenerated tables + T3 of producers/formatters + encode/decode isomorphism oracle")
+    assemble("C07", [("C07NQ.part", None, None), ("C02T.fragment", r"C07\.", "C07"), ("C05Ttl", r"C07\.", "C07")],
+      "proof (partial)",
+      "Proof: N-Triples in N-Quads at document level (nt_sub_nq: a document the N-Triples model accepts is accepted by the N-Quads model with the same statements, all in the default graph; per-step next_nt_quad/next_nt_done; run_congr + gen_decoder_tables_equal transfer it to the two real packages' regenerated tables: nt_sub_nq_real). Table, token and scan-function level for Turtle/TriG: the four packages' PN_CHARS_BASE and HexDecode tables are identical and PN_CHARS_U/PN_CHARS differ exactly by ':' between {ntriples,nquads} and {turtle,trig} (tables_agree, by decide on T1 tables of all four packages; the W3C grammars' own difference is known finding C07-bnode-label-colon); what the N-Triples IRIREF/string scanners accept the Turtle producers read identically; every Turtle scan function except the top-level one is independent of the trig flag (step_flag_independent, ttl_sub_trig_partial). Whole-document inclusion NT in Turtle/TriG and Turtle in TriG is corresponded: the harnesses run the same bytes through all four real decoders (encoder output, grammar-directed documents, all positive W3C N-Triples/Turtle files); one Lean model serves both Turtle and TriG so a drift between the duplicated copies shows as a T3 disagreement of one package.",
+      "Trusted: as C05 for the Turtle/TriG model; ttl_sub_trig and nt_sub_ttl are stated as defs (being proved: props/C08D.json).",
+      "Lean 4 document-level theorem NT in NQ + table/token/scan-function theorems + four-decoder differential oracle")
+    assemble("C08", [("C02T.fragment", r"C08\.", "C08"), ("C05Ttl", r"doc_emits_wf|ttl_doc_total_real", "C05")],
+      "proof (partial)",
+      "Proof (partial: token level): for every token kind and every lexical choice of the printer Spec/TurtlePrinter.lean (IRIREF raw or \\u/\\U per rune in either hex case; four string styles with raw/ECHAR/UCHAR per rune; prefixed names raw, PN_LOCAL_ESC or PERCENT per rune; numeric and boolean shorthand; language tags; blank node labels) the decoder's producer returns the token's value (decode_print_*). Statement level: the Turtle/TriG statement machine is modelled (Model/TurtleDoc.lean) and corresponded on the W3C suites, generated documents and mutations; the denotational document-level theorem (decode_print_flat / decode_print) is being added (props/C08D.json).",
+      "Trusted: as C02/C05; the abstract-syntax denotation is not yet part of the check.",
+      "Lean 4 printer/producer theorems per token kind + T3 of the statement machine against both decoders")
